@@ -9,37 +9,37 @@ TRUST = ("Trusted base: rustc nightly front end (name resolution, type check, MI
          "equality (see DESIGN.md §4 'not decided').")
 
 CHECKS = {
- "C01": ("other", "Structural necessary conditions of a drop-free parser decided on every path of all 30 parse_from_block4 and all 337 parse call sites: G1 end-of-input check dominates Ok, G2 anchored extraction, G3 no discarded parse error, G4 every parsed field written back (incl. conditionally built sub-structs), G7 option letters detectable, G8 loop progress / exit on error, G9 repetition in duplicate mode, U6/U7 accept conditions and delivered values of the MessageParser primitives = reviewed reference (only differences expressible in resolved vocabulary are reported; others are listed as undecided). Value equality up to canonical formatting is not decided.", "§4 C01, §7",
+ "C01": ("other", "Structural necessary conditions of a drop-free parser decided on every path of all 30 parse_from_block4 and all 337 parse call sites: G1 end-of-input check dominates Ok, G2 anchored extraction, G3 no discarded parse error, G4 every parsed field written back (incl. conditionally built sub-structs), G7 option letters detectable, G8 loop progress / exit on error, G9 repetition in duplicate mode, U3/U4 field parsers do not cut their content (fixed slices without an upper length test, take(n) / capped loops without a rejection), U6/U7 accept conditions and delivered values of the MessageParser primitives and of the private parse helpers of message types = reviewed reference (only differences expressible in resolved vocabulary are reported; others are listed as undecided). Value equality up to canonical formatting is not decided.", "§4 C01, §7",
          "must-pass-through, error-discipline and may-flow analysis over the resolved HIR (rustc_private driver) + formula equivalence against a reference"),
  "C02": ("translation_validation", "Parser <-> serialiser sibling comparison for 30 message types (G4 order, G5 tag, G6 kind) and 114 field types (CU component usage), header parse vs Display (H1 tags, H3 components), assembly (H2) and line endings (LE) read from the emission templates, amount rendering vs accepted input (N2, N3), U7 stored components and E1 emission templates of fields, headers and assembly = reviewed reference (semantic template equality). Equality of re-parsed values is not decided.", "§4 C02, §7",
          "translation validation between sibling functions (may-flow grammar extraction + append walk) over resolved HIR"),
  "C03": ("translation_validation", "The library's model is the layout: model <-> parser <-> serialiser kinds and order (G4, G6), option coverage (G7), exact option dispatch (O1), marker-keyed loops (G8), duplicate mode (G9), sibling and reference layouts (G10, G11), co-occurring options (CO), drop-free conditions (G1-G3), field-level accept / store / emit references (U6, U7, E1). No external layout table.", "§4 C03, §7",
          "translation validation model/parser/serialiser + finite evaluation of option dispatch"),
- "C04": ("other", "V1 rule wiring and per-type rule counts, V2 documented error code = emitted code literal, V3 code tables = reviewed reference (set or sequence semantics by use), V4 path condition of every error site logically equivalent (truth table) to the reviewed reference formula, V4s sibling implementations of one rule equivalent; small helpers and option getters are inlined; a difference confined to unresolved terms is undecided, not reported.", "§4 C04, §7.3",
+ "C04": ("other", "V1 rule wiring and per-type rule counts, V2 documented error code = emitted code literal, V3 code tables = reviewed reference (set or sequence semantics by use), V4 path condition of every error site logically equivalent (truth table) to the reviewed reference formula, V4s sibling implementations of one rule equivalent, U6/U7 the value helpers the rules call (codes extracted from a narrative, currency getters) = reference; small helpers and option getters are inlined; a difference confined to unresolved terms is undecided, not reported.", "§4 C04, §7.3",
          "path-condition extraction to boolean formulas over canonical atoms + truth-table equivalence; doc/body contradiction rule"),
- "C05": ("other", "U1 ASCII-only character predicates in the call-graph closure of all parsers, U3 two-sided length for fixed-offset parsers, U4 no silent truncation, T2 validated date components, U6/U7 accept condition and stored components of each of the 114 field parsers and the utility validators equivalent to the reviewed reference (three-valued comparison: only definite differences are reported). The full iff over all strings is not decided.", "§4 C05, §7.3",
+ "C05": ("other", "U1 ASCII-only character predicates in the call-graph closure of all parsers, U3 two-sided length for fixed-offset parsers, U4 no silent truncation (take(n) and capped loops), T2 validated date components, U6/U7 accept condition and stored components of each of the 114 field parsers and the utility validators equivalent to the reviewed reference (three-valued comparison: only definite differences are reported). The full iff over all strings is not decided.", "§4 C05, §7.3",
          "reachability + predicate census + accept-formula equivalence over resolved HIR"),
  "C06": ("other", "N1 single text->f64 conversion site dominated by a digits-and-separator shape test, N2 currency-aware rendering and decimal check per amount type, N3 precision pairing for currency-less types, U6/U7/E1 accept conditions, stored values and emission templates of the amount validators and amount field types = reference. Floating-point exactness is not decided.", "§4 C06",
          "who-may-call + dominance + sibling pairing + accept-formula equivalence"),
- "C07": ("other", "Panic ledger over ~890 reachable functions: P1 explicit panics, P2 333 string-slice sites (char boundary + constant-bound length guard), P3 unwrap/expect sites, P4 constant and guard-related non-constant vector indices, P5 every recursion cycle reviewed, P6 loop progress (every path back to a while condition touches what it reads), G8 sequence loops consume or leave. Run time and relational byte offsets of string slices are not decided.", "§4 C07, §7",
+ "C07": ("other", "Panic ledger over ~890 reachable functions: P1 explicit panics, P2 333 string-slice sites incl. get(range).unwrap() and split_at (char boundary + constant-bound length guard), P2b end bound `t + c` dominated by a length test, P7 no character count (chars().enumerate / position / count, also through crate functions returning one) reaches a byte-offset bound, P3 unwrap/expect sites, P4 constant and guard-related non-constant vector indices, P5 every recursion cycle reviewed, P6 loop progress (every path back to a while condition touches what it reads), G8 sequence loops consume or leave. Run time and relational byte offsets of string slices are not decided.", "§4 C07, §7",
          "path-sensitive abstract interpretation (length lower bounds, ASCII-ness, boundary positions, callee summaries) over structured HIR"),
- "C08": ("translation_validation", "JSON surface read from the generated serde code: J1 key uniqueness incl. flattened enums, J2 serialiser keys = deserialiser key table and hand-written key/value provenance, J4 untagged distinguishability, J5 skip symmetry, J6 ordered containers, J7 custom codec symmetry (serialize_with / with on both sides), T3 date codec symmetry, D1 plugin tables, N1 finite numbers. Value equality after the JSON round trip is not decided.", "§4 C08",
+ "C08": ("translation_validation", "JSON surface read from the generated serde code: J1 key uniqueness incl. flattened enums, J2 serialiser keys = deserialiser key table and hand-written key/value provenance, J4 untagged distinguishability, J5 skip symmetry, J6 ordered containers, J7 custom codec symmetry (serialize_with / with on both sides), J8 the publish cleaner selects by nullness / emptiness only, T3 date codec symmetry, T4 no hand-written range guard cuts into a clock / calendar component's range, D1 plugin tables, N1 finite numbers. Value equality after the JSON round trip is not decided.", "§4 C08",
          "extraction of key tables from derive-expanded HIR + set comparison + def-use tracing"),
- "C09": ("other", "G6 mandatory model field <-> mandatory step with that tag, D1 parser type literal = message_type(), G2 anchored extraction, G3 no discarded error, EP error payload dataflow on the MessageParser constructor sites (through constructor helpers), MO minimum-occurrence checks at their loop depth, U6 accept conditions of the MessageParser primitives = reference. Which error wins is not decided.", "§4 C09",
+ "C09": ("other", "G6 mandatory model field <-> mandatory step with that tag, D1 parser type literal = message_type(), G2 anchored extraction, G3 no discarded error, EP error payload dataflow on the MessageParser constructor sites (through constructor helpers), MO minimum-occurrence checks at their loop depth (followed into per-repetition helpers), G1 unexpected trailing field reported, U6/U7 accept conditions and delivered values of the MessageParser primitives = reference, U8 per primitive and ParseError variant the condition under which it is returned = reference, G11 step order = reference layout. Which error wins is not decided.", "§4 C09",
          "kind agreement + def-use tracing of error payloads + formula equivalence"),
  "C10": ("other", "H1 block-3/5 tag sets parse vs Display, H3 stored components written or derived + I/O direction dispatch, H4 emission order follows parse offsets, H2 assembly order and sources (from the emission template), U3 over-long header rejected, U6/U7/E1 accept conditions, stored components (incl. field assignments) and emission templates of header parsers, extract_block and the assembly = reference. Independence of block location from value characters is not decided in general.", "§4 C10",
          "literal-set / offset-order comparison of sibling functions + formula equivalence"),
- "C11": ("other", "T1 single century rule (who-may-call on chrono date constructors, census of century arithmetic, pivot), T2 validator reachability and rendering pattern per date/time-bearing field type, T3 JSON date codec symmetry, U6/U7/E1 accept conditions, stored values and emission templates of date/time validators and fields = reference. Reduces the 10^6-string claim to parse_date_yymmdd + chrono, which are read, not proved.", "§4 C11",
+ "C11": ("other", "T1 single century rule (who-may-call on chrono date constructors, census of century arithmetic, pivot), T2 validator reachability and rendering pattern per date/time-bearing field type, T3 JSON date codec symmetry, T4 hand-written range guards on values handed to chrono constructors do not reject values inside the component's range, U6/U7/E1 accept conditions, stored values and emission templates of date/time validators and fields = reference. Reduces the 10^6-string claim to parse_date_yymmdd + chrono, which are read, not proved.", "§4 C11",
          "who-may-call / must-call analysis, literal census and formula equivalence"),
- "C12": ("translation_validation", "All seven 30-way dispatch tables compared cell by cell with the 30 impl SwiftMessageBody (key literal, variant, generic arguments, callee, receiver type, returned literal): bijection, wildcard = unsupported error, wrapper enum accessors and serde tags, T03 mismatch test dominates the typed block-4 parse, D2 every consumer of a whole-message parse records an error on every path of its Err arm, S3 the validation adapters give one verdict.", "§4 C12",
+ "C12": ("translation_validation", "All seven 30-way dispatch tables compared cell by cell with the 30 impl SwiftMessageBody (key literal, variant, generic arguments, callee, receiver type, returned literal): bijection, wildcard = unsupported error, wrapper enum accessors and serde tags, a guarded catch-all arm is a finding, T03 mismatch test dominates the typed block-4 parse, U6 the block locator (extract_block) = reference, D2 every consumer of a whole-message parse records an error on every path of its Err arm, S3 the validation adapters give one verdict.", "§4 C12",
          "table extraction from resolved HIR match arms + bijection / equality check"),
- "C13": ("other", "S1 stop-flag discipline on every flag use in 30 validate_network_rules (+ callees receiving the flag), S2 purity / determinism of the MIR call-graph closure of validation, S3 adapters call (false), keep all errors, every exit of SwiftMessage::validate is built from that list with validity = is_empty(), S4 the accumulated list is append-only.", "§4 C13",
+ "C13": ("other", "S1 stop-flag discipline on every flag use in 30 validate_network_rules (+ callees receiving the flag), S2 purity / determinism of the MIR call-graph closure of validation, S3 adapters call (false), keep all errors, every exit of SwiftMessage::validate is built from that list with validity = is_empty(), S4 the accumulated list is append-only (no reorder / prune / mutable loan / re-assignment after the first append).", "§4 C13",
          "control-dependence + effect analysis over HIR and the MIR call graph"),
- "C14": ("other", "O1 finite static evaluation of parse_with_variant on 28 argument classes per option enum, O2 heuristic returns the variant whose parser it ran, O3 call sites pass the detected letter and call no letterless parser, G5 emitted tag per variant, G7 detector coverage, U6/U7/E1 of the option enums = reference. Stability for ambiguous contents is not decided.", "§4 C14",
+ "C14": ("other", "O1 finite static evaluation of parse_with_variant on 28 argument classes per option enum, O2 heuristic returns the variant whose parser it ran, O3 call sites pass the detected letter and call no letterless parser, G5 emitted tag per variant, G7 detector coverage, G11/type the option enum standing at each message position = reference, U6/U7/E1 of the option enums and U6 of their variant payload parsers = reference. Stability for ambiguous contents is not decided.", "§4 C14",
          "finite-domain evaluation of match arms + def-use tracing over resolved HIR"),
  "C16": ("other", "K1 unmasked stamp, K2 collision-free tag normalisation on all used tags, K3 tracker never un-consumes, K4 exactly one push per path of the distribution loop, K5 tracker key agreement, U6/U7 accept conditions and delivered collections (every push / clear / retain / sort with its condition) of tokeniser, tracker and sequence splitting = reference. Tokeniser exactness on arbitrary text is not decided.", "§4 C16",
          "expression-shape, table evaluation, path enumeration and formula equivalence"),
- "C17": ("other", "R1 code-word literal sets disjoint per type and equal across MT103/202/205 + message-level dispatch set, R2 method-selection chains of the 30 plugin arms (predicate -> method, priority, sibling block-3 tests), U6 truth conditions of all classification predicates = reference, U7 the block-3 values the classification reads reach the model as written.", "§4 C17",
+ "C17": ("other", "R1 code-word literal sets disjoint per type and equal across MT103/202/205 + message-level dispatch set, R2 method-selection chains of the 30 plugin arms (predicate -> method, priority, sibling block-3 tests), R3 every narrative a predicate reads is traversed completely (no positional selection), U6 truth conditions of all classification predicates = reference, U7 the block-3 values the classification reads reach the model as written.", "§4 C17",
          "sibling cross-check of literals and if-chains + formula equivalence"),
 }
 
